@@ -37,6 +37,13 @@ import (
 )
 
 func main() {
+	if d := os.Getenv("C25_REPLAY"); d != "" {
+		log.SetDefault(log.NewLogger(log.NewTerminalHandlerWithLevel(os.Stderr, log.LevelInfo, false)))
+		os.Setenv("C25_OPLOG_OVERRIDE", filepath.Join(d, "oplog"))
+		out, _ := json.MarshalIndent(checkState(d), "", " ")
+		fmt.Println(string(out))
+		return
+	}
 	vrt.RegisterChild("c25-workload", workloadChild)
 	vrt.RegisterChild("c25-reopen", reopenChild)
 	vrt.Main("C25", run)
@@ -180,8 +187,23 @@ func observe(db ethdb.Database, c *Chain, head uint64) string {
 					}
 				}
 			}
-			if !rawdb.HasReceipts(db, hash, n) && len(b.Receipts) > 0 {
+			if !rawdb.HasReceipts(db, hash, n) {
+				// HasReceipts/HasBody/HasHeader look into the freezer and then into the
+				// key-value store without holding the freezer lock; the background freezer
+				// (started by rawdb.Open) can migrate the block in between. A miss that does
+				// not repeat is that race, a miss that repeats is data loss.
+				if rawdb.HasReceipts(db, hash, n) {
+					return fmt.Sprintf("TRANSIENT HasReceipts(block %d) false once, true on the next call", n)
+				}
 				return fmt.Sprintf("HasReceipts(block %d) false", n)
+			}
+			for name, has := range map[string]func(ethdb.Reader, common.Hash, uint64) bool{"HasHeader": rawdb.HasHeader, "HasBody": rawdb.HasBody} {
+				if !has(db, hash, n) {
+					if has(db, hash, n) {
+						return fmt.Sprintf("TRANSIENT %s(block %d) false once, true on the next call", name, n)
+					}
+					return fmt.Sprintf("%s(block %d) false", name, n)
+				}
 			}
 			if got := rawdb.ReadCanonicalReceiptsRLP(db, n, &hash); len(got) == 0 && len(b.Receipts) > 0 {
 				return fmt.Sprintf("ReadCanonicalReceiptsRLP(block %d) empty", n)
@@ -386,6 +408,9 @@ func checkState(dir string) (v Verdict) {
 		return Verdict{FP: "harness", Msg: "expect.json"}
 	}
 	e := w.Expect
+	if o := os.Getenv("C25_OPLOG_OVERRIDE"); o != "" {
+		e.Oplog = o
+	}
 	c := genChain(&e.Plan)
 	mem, n, err := kvrec.Load(e.Oplog, w.KVN)
 	if err != nil || n != w.KVN {
@@ -412,6 +437,9 @@ func checkState(dir string) (v Verdict) {
 		return Verdict{FP: "blockdata-tail-advanced-by-repair", Msg: fmt.Sprintf("after reopen the freezer holds %d blocks but bodies/receipts below %d are hidden (tail of the block-data group moved by the repair); %s", v.Frozen, tail, observe(db, c, e.Head)), Frozen: v.Frozen}
 	}
 	if msg := observe(db, c, e.Head); msg != "" {
+		if strings.HasPrefix(msg, "TRANSIENT ") {
+			return Verdict{FP: "has-accessor-transient-miss-during-background-freeze", Msg: msg, Frozen: v.Frozen}
+		}
 		return Verdict{FP: "accessor-mismatch-after-crash", Msg: msg, Frozen: v.Frozen}
 	}
 	for nn := uint64(1); nn < v.Frozen; nn++ {
